@@ -21,6 +21,8 @@ def make_callbacks(mod, log):
         return cb
     return {
         'id': mk('id', lambda v: v),
+        # the identity, computed by a transform of its own (with another callback) run inside this callback
+        'Nest': mk('Nest', lambda v: (mod.transform([v], lambda n: n), v)[1]),
         'AtoZ': mk('AtoZ', lambda v: mod.Z() if is_obj(v, 'A') else v),
         'Acopy': mk('Acopy', lambda v: tagged(mod.A(v.x)) if is_obj(v, 'A') else v),
         'Bswap': mk('Bswap', lambda v: mod.B(v._r, v.l) if is_obj(v, 'B') else v),
